@@ -542,8 +542,8 @@ def third_text() -> str:
     """A document as a person writes it by hand (the library's writer never produces these spellings): the `signed`
     attribute of integer types (which does not describe the encoding), zero-padded decimal literals, a comparison list with
     two comparisons on one parameter (a range, and a contradiction), time encodings with scale and offset together, context
-    calibrators whose contexts have different numbers of comparisons, a spline with a step, a little-endian termination
-    character, and indentation."""
+    calibrators whose contexts have different numbers of comparisons, a spline with a step up and a step down, the optional
+    AncillaryDataSet in front of a calibrator, a little-endian termination character, and indentation."""
     hdr_types = "\n".join(f'''      <xtce:IntegerParameterType name="{n}_T" signed="false">
         <xtce:UnitSet/>
         <xtce:IntegerDataEncoding sizeInBits="{w}" encoding="unsigned"/>
@@ -606,6 +606,9 @@ def third_text() -> str:
       <xtce:IntegerParameterType name="CC_T" signed="false">
         <xtce:IntegerDataEncoding sizeInBits="8" encoding="unsigned">
           <xtce:DefaultCalibrator>
+            <xtce:AncillaryDataSet>
+              <xtce:AncillaryData name="source">bench calibration 2024</xtce:AncillaryData>
+            </xtce:AncillaryDataSet>
             <xtce:PolynomialCalibrator>
               <xtce:Term exponent="0" coefficient="0.5"/>
               <xtce:Term exponent="1" coefficient="1"/>
@@ -630,6 +633,9 @@ def third_text() -> str:
                 </xtce:ComparisonList>
               </xtce:ContextMatch>
               <xtce:Calibrator>
+                <xtce:AncillaryDataSet>
+                  <xtce:AncillaryData name="source">flight</xtce:AncillaryData>
+                </xtce:AncillaryDataSet>
                 <xtce:PolynomialCalibrator>
                   <xtce:Term exponent="0" coefficient="7"/>
                   <xtce:Term exponent="1" coefficient="3"/>
@@ -647,6 +653,8 @@ def third_text() -> str:
               <xtce:SplinePoint raw="10" calibrated="10"/>
               <xtce:SplinePoint raw="10" calibrated="20"/>
               <xtce:SplinePoint raw="20" calibrated="30"/>
+              <xtce:SplinePoint raw="20" calibrated="25"/>
+              <xtce:SplinePoint raw="30" calibrated="35"/>
             </xtce:SplineCalibrator>
           </xtce:DefaultCalibrator>
         </xtce:IntegerDataEncoding>
